@@ -2,8 +2,8 @@
    Only statements here; proofs live in Proofs/C10_*.v.  [gen_area_getitem] is regenerated from
    /repo's AreaDefinition.__getitem__ on every run (Gen/GenC10.v). *)
 From Coq Require Import Reals ZArith List Lia Lra Bool.
-From PR Require Import Base.Num Base.RNum Base.Slice Model.Grid Model.SliceArea Model.Stack Gen.GenC10
-     Model.LonlatPaths Model.StackDask Base.ZX Proofs.C10_list Proofs.C10_slice Proofs.C10_stack Proofs.C10_paths Proofs.C10_main.
+From PR Require Import Base.Num Base.RNum Base.Slice Base.Imp Model.Grid Model.SliceArea Model.Stack Gen.GenC10
+     Model.LonlatPaths Model.StackDask Base.ZX Proofs.C10_list Proofs.C10_slice Proofs.C10_stack Proofs.C10_paths Model.ImpStack Gen.GenC10imp Model.C10_imp_run Proofs.C10_imp Proofs.C10_main.
 Import ListNotations.
 Open Scope Z_scope.
 
@@ -251,3 +251,66 @@ Proof. exact main_split_concat_routes. Qed.
 Print Assumptions C10_split_concat_routes.
 Example C10_routes_ex : wf_g ex_area /\ 0 <= 0 /\ 0 < 1 /\ 1 < 3 /\ 3 <= gheight ex_area.
 Proof. split; [exact C10_ex_wf|cbn; lia]. Qed.
+
+(* ================= wave 3: code is model for the stateful methods of StackedAreaDefinition ================= *)
+(* imp_stack_append / imp_stack_squeeze / imp_stack_width / imp_stack_height are regenerated on every run from
+   StackedAreaDefinition.append (AreaDefinition argument) / squeeze / width / height by tools/py2coq_imp.py (Gen/GenC10imp.v);
+   concatenate_area_defs inside append is the definition regenerated by the first front end. *)
+
+(* one append: the regenerated method mutates self exactly as Model.Stack.stack_append says (member skipped when its height
+   is 0, CRS recorded on the first member, NotImplementedError on a CRS mismatch, merge with the last member or a new
+   member when concatenation raises); whenever a member is taken the memoised hash / lons / lats are reset *)
+Theorem C10_append_code_is_model : forall (T : Type) (OP : ops T) (p : pstack T) (d : garea T),
+  match stack_append OP (to_stack p) d with
+  | None => imp_stack_append OP p d = Raised
+  | Some s' => exists st', state_of (imp_stack_append OP p d) = COk st' /\ to_stack (imp_stack_append_self st') = s' /\
+                           (gheight d <> 0 -> memo_reset (imp_stack_append_self st')) /\
+                           (gheight d = 0 -> imp_stack_append_self st' = p)
+  end.
+Proof. exact main_append_code_is_model. Qed.
+Print Assumptions C10_append_code_is_model.
+
+(* every sequence of appends on one object (induction over the sequence) *)
+Theorem C10_append_sequence_code_is_model : forall (T : Type) (OP : ops T) (ds : list (garea T)) (p : pstack T),
+  match stack_append_all OP (to_stack p) ds with
+  | None => imp_append_all OP p ds = CRaised
+  | Some s' => exists p', imp_append_all OP p ds = COk p' /\ to_stack p' = s'
+  end.
+Proof. exact main_append_sequence_code_is_model. Qed.
+Print Assumptions C10_append_sequence_code_is_model.
+
+(* squeeze(), width, height *)
+Theorem C10_stack_observers_code_is_model : forall (T : Type) (OP : ops T) (p : pstack T),
+  value_of (imp_stack_squeeze OP p) = COk (match stack_squeeze (to_stack p) with Some d => inl d | None => inr p end) /\
+  value_of (imp_stack_width OP p) = match ps_defs p with [] => CRaised | d :: _ => COk (gwidth d) end /\
+  (ps_defs p <> [] -> value_of (imp_stack_width OP p) = COk (stack_width (to_stack p))) /\
+  value_of (imp_stack_height p) = COk (stack_height (to_stack p)).
+Proof. exact main_stack_observers_code_is_model. Qed.
+Print Assumptions C10_stack_observers_code_is_model.
+
+(* hence C10_stack_split_id holds of the code: the parts of any split, appended one after the other to an empty
+   StackedAreaDefinition by the regenerated append, leave ONE member equal to the original, which the regenerated
+   squeeze() returns, with the regenerated height equal to the original's *)
+Theorem C10_stack_split_id_code : forall g cuts, wf_g g -> cuts_ok 0 cuts (gheight g) ->
+  exists p' m, imp_append_all RO pstack_empty (parts RO g 0 cuts) = COk p' /\ ps_defs p' = [m] /\
+               value_of (imp_stack_squeeze RO p') = COk (inl m) /\ g_area m = g_area g /\ g_crs m = g_crs g /\
+               value_of (imp_stack_height p') = COk (gheight g).
+Proof. exact main_stack_split_id_code. Qed.
+Print Assumptions C10_stack_split_id_code.
+Example C10_imp_append_ex :
+  exists p', imp_append_all RO pstack_empty [ex_area; ex_area] = COk p' /\ Imp.zlen (ps_defs p') = 2.
+Proof.
+  pose proof (main_append_sequence_code_is_model R RO [ex_area; ex_area] pstack_empty) as H.
+  destruct (stack_append_all RO (to_stack pstack_empty) [ex_area; ex_area]) as [s'|] eqn:E.
+  - destruct H as (p' & Ep & Es). exists p'. split; [exact Ep|].
+    assert (L : length (s_rdefs s') = 2%nat).
+    { revert E. unfold to_stack, pstack_empty. cbn [ps_crs ps_defs rev stack_append_all stack_append gheight height g_area ex_area Z.eqb s_rdefs s_crs g_crs negb].
+      unfold concatenate_area_defs, combine_area_extents_vertical. cbn [g_crs ex_area Z.eqb gwidth width g_area andb xmin xmax ymin ymax eqb RO].
+      rewrite !Reqb_refl. cbn [andb].
+      rewrite (isclose_far 0 30) by (replace (0 - 30)%R with (- (30))%R by lra; rewrite Rabs_Ropp, !Rabs_pos_eq by lra; lra).
+      rewrite (isclose_far 30 0) by (replace (30 - 0)%R with 30%R by lra; rewrite Rabs_R0, Rabs_pos_eq by lra; lra).
+      intros E. inversion E. reflexivity. }
+    rewrite <- Es in L. unfold to_stack in L. cbn [s_rdefs] in L. rewrite rev_length in L. unfold Imp.zlen. rewrite L. reflexivity.
+  - exfalso. revert E. unfold to_stack, pstack_empty. cbn [ps_crs ps_defs rev stack_append_all stack_append gheight height g_area ex_area Z.eqb s_rdefs s_crs g_crs negb].
+    destruct (concatenate_area_defs RO ex_area ex_area); discriminate.
+Qed.
